@@ -63,6 +63,69 @@ Notation clashes_C19 I w :=
              KeyCode_eqb (fst (fst ab)) (fst (snd ab)) && negb (pn_eqb (snd (fst ab)) (snd (snd ab))))
           (list_prod (down_keys I w) (down_keys I w))).
 
+(* --- in any history: every complete sequence, make or break form, defined or not, leaves the decoder in
+   its initial state; hence in a stream of complete sequences each one is decoded exactly as on a fresh
+   decoder, and pairing and one-to-one-ness hold for it whatever was typed before --- *)
+Definition home (I : ScanImpl) (bs : list N) : bool :=
+  match sc_init I with
+  | Ret s0 => match run (scan_machine I) s0 bs with Ret (s', _) => sc_eqb I s' s0 | Panic => false end
+  | Panic => false
+  end.
+(* in Set 1 the "break forms" of the unprefixed codes 0x60 and 0x61 are the prefix bytes E0 and E1 themselves:
+   those two are not key sequences *)
+Definition complete (w : which_set) (p : prefix) (c : N) : bool :=
+  wf w p c &&
+  match w with
+  | Set1 => negb (prefix_eqb p P0 && ((c =? 0x60) || (c =? 0x61)))
+  | Set2 => true
+  end.
+Notation homeless_C19 I w :=
+  (filter (fun x : prefix * N => complete w (fst x) (snd x) &&
+                                 negb (home I (make_seq w (fst x) (snd x)) && home I (break_seq w (fst x) (snd x)))) (wf_domain w)).
+
+(* a complete sequence: break flag, prefix, code *)
+Definition cseq : Type := (bool * prefix * N)%type.
+Definition cseq_bytes (w : which_set) (q : cseq) : list N :=
+  let '(brk, p, c) := q in if brk then break_seq w p c else make_seq w p c.
+Definition cseq_ok (w : which_set) (q : cseq) : Prop := let '(_, p, c) := q in c < 256 /\ complete w p c = true.
+
+Section History.
+  Variable I : ScanImpl.
+  Variable w : which_set.
+  Variable s0 : sc_st I.
+  Hypothesis Hi : sc_init I = Ret s0.
+  Hypothesis Hh : homeless_C19 I w = [].
+
+  Lemma cseq_home : forall q, cseq_ok w q -> exists os, run (scan_machine I) s0 (cseq_bytes w q) = Ret (s0, os).
+  Proof.
+    intros [[brk p] c] [Hc Hw].
+    assert (Hin : In (p, c) (wf_domain w)).
+    { unfold wf_domain. apply filter_In. split; [apply domain_complete; exact Hc |].
+      unfold complete in Hw. apply andb_prop in Hw as [Hw _]. exact Hw. }
+    pose proof (filter_nil_forall _ _ Hh (p, c) Hin) as H. cbn [fst snd] in H. rewrite Hw in H. cbn [andb] in H.
+    apply negb_false_iff in H.
+    apply andb_prop in H as [Hm Hb]. unfold home in Hm, Hb. rewrite Hi in Hm, Hb. cbn [cseq_bytes].
+    destruct brk.
+    - destruct (run (scan_machine I) s0 (break_seq w p c)) as [[s' os]|]; [|discriminate].
+      apply (reflect_eq_true (eqb_spec_pf (f:=sc_eqb I) (EqbSpec:=sc_eqb_ok I) _ _)) in Hb. subst s'. eauto.
+    - destruct (run (scan_machine I) s0 (make_seq w p c)) as [[s' os]|]; [|discriminate].
+      apply (reflect_eq_true (eqb_spec_pf (f:=sc_eqb I) (EqbSpec:=sc_eqb_ok I) _ _)) in Hm. subst s'. eauto.
+  Qed.
+
+  (* any stream of complete sequences, of any length: the outputs are the concatenation of what each
+     sequence yields on a fresh decoder *)
+  Theorem C19_history_sound : forall qs, Forall (cseq_ok w) qs ->
+    exists oss : list (list sc_result),
+      run (scan_machine I) s0 (flat_map (cseq_bytes w) qs) = Ret (s0, List.concat oss) /\
+      Forall2 (fun q os => run (scan_machine I) s0 (cseq_bytes w q) = Ret (s0, os)) qs oss.
+  Proof.
+    induction 1 as [|q qs Hq _ IH].
+    - exists []. simpl. auto.
+    - destruct IH as (oss & R & F). destruct (cseq_home q Hq) as (os & Rq).
+      exists (os :: oss). cbn [flat_map List.concat]. rewrite run_app, Rq, R. split; [reflexivity|]. constructor; assumption.
+  Qed.
+End History.
+
 Section Sound.
   Variable I : ScanImpl.
   Variable w : which_set.
